@@ -169,8 +169,33 @@ def export_maps(run, r, N):
             if isinstance(v, ast.Attribute):
                 return v.attr
         return None
+    def objs_of_iter(it):
+        """The model objects an iterable of conditions may be read from: every definition that can reach it (the normal form has already
+        substituted a local with a single reaching definition, so a remaining name stands for several)."""
+        it = strip_cast(it)
+        vals = [it]
+        if isinstance(it, ast.Name):
+            vals = [strip_cast(v) for st, v in q.assigned_value(F, it.id)] or [it]
+        out_ = set()
+        for v in vals:
+            if isinstance(v, ast.Call) and isinstance(v.func, ast.Name) and v.func.id == 'getattr' and v.args:
+                out_.add(q.unparse(strip_cast(v.args[0])))
+            elif isinstance(v, ast.Attribute):
+                out_.add(q.unparse(strip_cast(v.value)))
+            else:
+                out_.add('?' + q.unparse(v)[:30])
+        return out_
+    tloops = [lp for lp in q.walk(F, False) if isinstance(lp, ast.For) and isinstance(lp.target, ast.Name) and lp.target.id == N['transition']]
     for n in q.walk(F):
         if isinstance(n, ast.Dict) and len(n.keys) == 1 and q.const_str(n.keys[0]) in ('before', 'after', 'always') and isinstance(n.values[0], ast.Name):
+            par_ = getattr(n, '_parent', None)
+            it_ = par_.generators[0].iter if isinstance(par_, (ast.ListComp, ast.GeneratorExp)) and par_.elt is n else (q.enclosing(n, ast.For).iter if q.enclosing(n, ast.For) is not None else None)
+            if it_ is not None:
+                level_ = 'transition' if any(q.in_node(n, tl) for tl in tloops) else 'state'
+                want_ = {N['transition']} if level_ == 'transition' else {N['state'], 'cast(StateMixin, %s)' % N['state']}
+                got_ = objs_of_iter(it_)
+                run.check(bool(got_) and got_ <= want_, r, fi.short, "'%s' conditions of the %s contract are read from the %s itself" % (q.const_str(n.keys[0]), level_, level_),
+                          'the %s contract is built from the conditions of %s: a local holding them is rebound (by the transition loop) before it is used' % (level_, sorted(got_)), n)
             a = None
             par = getattr(n, '_parent', None)
             if isinstance(par, (ast.ListComp, ast.GeneratorExp)) and par.elt is n and len(par.generators) == 1 and not par.generators[0].ifs \
